@@ -3,6 +3,7 @@
 patch=$1; props=$2
 cd /repo && git apply "$patch" || exit 2
 cd /verif
+export VERIF_EVIDENCE_DIR=/tmp/ev-seeded; mkdir -p $VERIF_EVIDENCE_DIR
 for p in $props; do
   echo "=== $p"
   ./tools/check.sh $p quick 2>&1 | grep -E "^--- violation|^VIOLATION|^runs=|HARNESS|error" | cut -c1-300
